@@ -276,6 +276,12 @@ func (a String) M__mul__(other Object) (Object, error) {
 			// nothing to repeat: do not loop b times over an empty string
 			return String(""), nil
 		}
+		// a result which can never be allocated would loop (almost) for ever
+		// and then abort the process rather than raise an error
+		const maxLen = 1 << 40
+		if int(b) > maxLen/len(a) {
+			return nil, ExceptionNewf(MemoryError, "repeated string is too long")
+		}
 		var out bytes.Buffer
 		for i := 0; i < int(b); i++ {
 			out.WriteString(string(a))
